@@ -478,6 +478,30 @@ func ParseToken(s string) (parsed string, ok bool) {
 	return s, true
 }
 
+// isBase64 reports whether s, which must only contain characters of the
+// base64 alphabet and "=", can be base64-decoded (RFC 4648, Section 4). As
+// RFC 9651 asks of parsers, missing "=" padding is tolerated; padding that is
+// misplaced or excessive is not.
+func isBase64(s string) bool {
+	n := len(s)
+	for n > 0 && s[n-1] == '=' {
+		n--
+	}
+	pad := len(s) - n
+	if strings.IndexByte(s[:n], '=') >= 0 {
+		return false
+	}
+	switch n % 4 {
+	case 0:
+		return pad == 0
+	case 2:
+		return pad <= 2
+	case 3:
+		return pad <= 1
+	}
+	return false
+}
+
 // https://www.rfc-editor.org/rfc/rfc9651.html#name-parsing-a-byte-sequence.
 func consumeByteSequence(s string) (consumed, rest string, ok bool) {
 	if len(s) == 0 || s[0] != ':' {
@@ -485,6 +509,9 @@ func consumeByteSequence(s string) (consumed, rest string, ok bool) {
 	}
 	for i := 1; i < len(s); i++ {
 		if ch := s[i]; ch == ':' {
+			if !isBase64(s[1:i]) {
+				return "", s, false
+			}
 			return s[:i+1], s[i+1:], true
 		}
 		if ch := s[i]; !isAlpha(ch) && !isDigit(ch) && !slices.Contains([]byte("+/="), ch) {
